@@ -130,16 +130,27 @@ func TypeOf(p mq.Packet) byte {
 	return 255
 }
 
+// FilterArena is one backing array from which a history takes the argument
+// slices of successive AddFilters calls: each call gets arena[i:j], a slice
+// with SPARE CAPACITY whose following elements are the (already prepared)
+// arguments of later calls. A callee that keeps the slice instead of copying
+// it, and later appends, overwrites those.
+type FilterArena struct {
+	Buf  []mq.TopicFilter
+	Next int
+}
+
 // Op is one public setter/adder call.
 type Op struct {
-	Kind string // see Apply
-	ID   byte   // property identifier for Kind "prop"
-	N    uint32
-	B    []byte
-	Flag bool
-	KV   [][2][]byte // "userprops": pairs passed to one AddUserProp call
-	Will *ref.Will   // "will"
-	Fs   []ref.Filter
+	Kind  string // see Apply
+	ID    byte   // property identifier for Kind "prop"
+	N     uint32
+	B     []byte
+	Flag  bool
+	KV    [][2][]byte // "userprops": pairs passed to one AddUserProp call
+	Will  *ref.Will   // "will"
+	Fs    []ref.Filter
+	Arena *FilterArena // "filters" on SUBSCRIBE: take the argument slice from this arena
 }
 
 func (o Op) String() string {
@@ -536,6 +547,12 @@ func Apply(p mq.Packet, o Op) error {
 	case "filters":
 		switch x := p.(type) {
 		case *mq.Subscribe:
+			if o.Arena != nil && o.Arena.Next+len(o.Fs) <= len(o.Arena.Buf) {
+				sub := o.Arena.Buf[o.Arena.Next : o.Arena.Next+len(o.Fs)]
+				o.Arena.Next += len(o.Fs)
+				x.AddFilters(sub...)
+				return nil
+			}
 			fs := make([]mq.TopicFilter, len(o.Fs))
 			for i, f := range o.Fs {
 				if i%2 == 0 {
